@@ -173,7 +173,50 @@ func fieldOnlyMade(fa *ssa.FieldAddr) bool {
 }
 
 // guardFor returns the name of the recognised guard idiom protecting op, or "".
+// counterBelow: idx is a loop counter running over 0 <= i < n' with a constant n' <= n.
+func counterBelow(idx ssa.Value, n int64) bool {
+	within := func(iv *IndVar) bool {
+		init, okI := constInt(iv.Init)
+		lim, okL := constInt(iv.Limit)
+		step, okS := constInt(iv.Step)
+		if !okI || !okL || !okS || step != 1 || iv.Down || iv.Op != token.LSS {
+			return false
+		}
+		first := init
+		if iv.PreInc {
+			first = init + 1
+		}
+		return first >= 0 && lim <= n
+	}
+	if phi, ok := idx.(*ssa.Phi); ok {
+		if iv := findIndVar(phi); iv != nil && !iv.PreInc {
+			return within(iv)
+		}
+	}
+	if bo, ok := idx.(*ssa.BinOp); ok && bo.Op == token.ADD {
+		if phi, ok := bo.X.(*ssa.Phi); ok {
+			if iv := findIndVar(phi); iv != nil && iv.PreInc && iv.Next == bo {
+				return within(iv)
+			}
+		}
+	}
+	return false
+}
+
 func guardFor(op riskyOp) string {
+	// G6: an array indexed by a counter that runs below its (constant) length
+	switch in := op.In.(type) {
+	case *ssa.Index:
+		if at, ok := in.X.Type().Underlying().(*types.Array); ok && counterBelow(in.Index, at.Len()) {
+			return "G6 array indexed by a counter below its length"
+		}
+	case *ssa.IndexAddr:
+		if pt, ok := in.X.Type().Underlying().(*types.Pointer); ok {
+			if at, ok := pt.Elem().Underlying().(*types.Array); ok && counterBelow(in.Index, at.Len()) {
+				return "G6 array indexed by a counter below its length"
+			}
+		}
+	}
 	switch in := op.In.(type) {
 	case *ssa.IndexAddr:
 		idx := in.Index
@@ -490,6 +533,19 @@ func checkPanicContainment(p *Program, r *Report) {
 			be.EvalInits = true
 			be.TrackBounds = true
 			be.MaxIter, be.MaxForks = 3, 3
+			// frames with an armed recover contain their own panics: they need not be entered
+			armed := map[*ssa.Function]bool{}
+			be.Opaque = func(g *ssa.Function) bool {
+				if g == f {
+					return true // self-recursion: the function is analysed for every argument anyway
+				}
+				v, ok := armed[g]
+				if !ok {
+					v = recoverArmedQuiet(p, g)
+					armed[g] = v
+				}
+				return v
+			}
 			st := newState()
 			s := &Stream{Name: "in"}
 			st.pos[s] = formInt(0)
